@@ -57,8 +57,12 @@ impl Scenario for C38 {
                     steps.push(json!({"thread": t, "op": "create_sub"}));
                 }
             }
+            // four runs in ten stay away from the operations behind the listed findings (Call,
+            // CreateSession): a deadlock reached in such a run cannot be one of them, and none of them can
+            // end the run before another one is reached
+            let w: [u32; 12] = if rng.chance(0.4) { [0, 0, 4, 2, 0, 2, 2, 2, 1, 2, 1, 2] } else { [4, 2, 4, 1, 2, 1, 1, 1, 1, 1, 1, 2] };
             for _ in 0..rng.urange(2, 8) {
-                let op = ops[rng.weighted(&[4, 2, 4, 1, 2, 1, 1, 1, 1, 1, 1, 2])];
+                let op = ops[rng.weighted(&w)];
                 steps.push(json!({"thread": rng.below(2), "op": op, "n": rng.urange(1, 3)}));
             }
             return json!({"l3": true, "sseed": rng.next_u64() >> 12, "tseed": rng.next_u64() >> 12, "steps": steps});
